@@ -1,10 +1,22 @@
 """C09 — postponed resolution reaches the right fixpoint and terminates.
 
-Implementation side: a grammar with named references whose scope provider is
-table driven: reference `rK` resolves iff all references in deps[rK] are
-already resolved (their attribute is set), otherwise it returns Postponed().
+Implementation side: a grammar whose references — single-valued attributes, two
+single-valued attributes on one object, list attributes (`+=`, `*=`, repeated
+plain assignment; several objects of one class, two list attributes on one
+object, equally named list attributes of different classes), objects nested in
+containers — are resolved by a table-driven scope provider: reference K (it
+names item `tK`) resolves iff all references in deps[K] are already resolved
+(their attribute holds the target), otherwise the provider returns Postponed().
 References are spread over 1..3 model files (ImportURI loading).  The Lean model
-(`Resolve.loop`, Drivers/Resolve.lean) is run on the same table and order.
+(`Resolve.loop` + `Resolve.attrAfter`, Drivers/Resolve.lean) is run on the same
+table, order and list attributes.
+
+Case format:
+  {"deps": [[K, [K1, ...]], ...], "prov": "exact"|"attr"|"cls",
+   "files": [{"imports": [file index, ...], "elems": [ELEM, ...]}, ...]}
+  ELEM = {"k":"ref","r":K} | {"k":"link","r":[K1,K2]} | {"k":"group","m":[K..],"x":[K..]}
+       | {"k":"bag","m":[K..]} | {"k":"pair","m":[K1,K2(,K3)]} | {"k":"box","e":[ELEM..]}
+  (a file may give "refs": [K..] instead of "elems": one `ref` element each).
 """
 import os
 import re
@@ -14,18 +26,167 @@ import tempfile
 from harness.core import Check, use_repo
 
 GRAMMAR = r"""
-Model: imports*=Import items*=Item refs*=Ref;
+Model: imports*=Import items*=Item elems*=Elem;
 Import: 'import' importURI=STRING;
 Item: 'item' name=ID;
+Elem: Ref | Link | Group | Bag | Pair | Box;
 Ref: 'ref' name=ID '->' target=[Item];
+Link: 'link' name=ID ':' src=[Item] '->' dst=[Item];
+Group: 'group' name=ID ':' members+=[Item][','] ('&' more+=[Item][','])? ';';
+Bag: 'bag' name=ID ':' members*=[Item][','] ';';
+Pair: 'pair' name=ID ':' members=[Item] members=[Item] (members=[Item])? ';';
+Box: 'box' name=ID '{' elems*=Elem '}';
 """
+
+# reference attributes per class, in textual order: (attribute, is list)
+REF_ATTRS = {
+    "Ref": [("target", False)],
+    "Link": [("src", False), ("dst", False)],
+    "Group": [("members", True), ("more", True)],
+    "Bag": [("members", True)],
+    "Pair": [("members", True)],
+}
+CLASS_OF = {"ref": "Ref", "link": "Link", "group": "Group", "bag": "Bag", "pair": "Pair", "box": "Box"}
 
 
 class NonTermination(Exception):
     pass
 
 
-def make_mm(table, log, limit):
+# --------------------------------------------------------------------------
+# case structure
+# --------------------------------------------------------------------------
+def file_elems(f):
+    if "elems" in f:
+        return f["elems"]
+    return [{"k": "ref", "r": r} for r in f.get("refs", [])]
+
+
+def elem_attrs(e):
+    """reference attributes of one (non-box) element: [(attr, is_list, [K..])] in textual order"""
+    k = e["k"]
+    if k == "ref":
+        return [("target", False, [e["r"]])]
+    if k == "link":
+        return [("src", False, [e["r"][0]]), ("dst", False, [e["r"][1]])]
+    if k == "group":
+        out = [("members", True, list(e["m"]))]
+        if e.get("x"):
+            out.append(("more", True, list(e["x"])))
+        return out
+    if k in ("bag", "pair"):
+        return [("members", True, list(e["m"]))]
+    raise ValueError(f"unknown element kind {k!r}")
+
+
+def elem_refs(e):
+    """references of an element in textual order"""
+    if e["k"] == "box":
+        return [r for c in e["e"] for r in elem_refs(c)]
+    return [r for _, _, rs in elem_attrs(e) for r in rs]
+
+
+def file_refs(f):
+    return [r for e in file_elems(f) for r in elem_refs(e)]
+
+
+def render_file(i, f):
+    """text of model file i and its reference attributes in textual order:
+    [{"file", "path", "cls", "attr", "list", "refs": [[K, position]..]}]"""
+    text = "".join(f'import "f{j}.m"\n' for j in f["imports"])
+    text += f"item pad{i}\n"  # an empty file would yield a str model (outside C09)
+    text += "".join(f"item t{r}\n" for r in file_refs(f))
+    attrs = []
+
+    def ref(r, into):
+        nonlocal text
+        into.append([r, len(text)])
+        text += f"t{r}"
+
+    def emit(e, path, depth):
+        nonlocal text
+        k = e["k"]
+        name = k[0] + str(i) + "_" + "_".join(str(p) for p in path)
+        text += "  " * depth + f"{k} {name} "
+        if k == "box":
+            text += "{\n"
+            for j, c in enumerate(e["e"]):
+                emit(c, path + [j], depth + 1)
+            text += "  " * depth + "}\n"
+            return
+        recs = []
+        for attr, is_list, _ in elem_attrs(e):
+            recs.append({"file": i, "path": list(path), "cls": CLASS_OF[k], "attr": attr, "list": is_list, "refs": []})
+        if k == "ref":
+            text += "-> "
+            ref(e["r"], recs[0]["refs"])
+        elif k == "link":
+            text += ": "
+            ref(e["r"][0], recs[0]["refs"])
+            text += " -> "
+            ref(e["r"][1], recs[1]["refs"])
+        else:
+            text += ":"
+            sep = " " if k == "pair" else " , "
+            for n, r in enumerate(e["m"]):
+                text += sep if n else " "
+                ref(r, recs[0]["refs"])
+            if k == "group" and e.get("x"):
+                text += " &"
+                for n, r in enumerate(e["x"]):
+                    text += " , " if n else " "
+                    ref(r, recs[1]["refs"])
+            text += " ;"
+        text += "\n"
+        attrs.extend(recs)
+
+    for j, e in enumerate(file_elems(f)):
+        emit(e, [j], 0)
+    return text, attrs
+
+
+def case_attrs(case):
+    """all reference attributes of the case, files in index order"""
+    return [a for i, f in enumerate(case["files"]) for a in render_file(i, f)[1]]
+
+
+def walk_elems(model_elems, case_elems, path=()):
+    """pair the objects of a loaded model with the elements of the case: yields (path, element, object)"""
+    if len(model_elems) != len(case_elems):
+        raise ValueError(f"{len(model_elems)} objects for {len(case_elems)} elements at {list(path)}")
+    for j, (o, e) in enumerate(zip(model_elems, case_elems)):
+        if type(o).__name__ != CLASS_OF[e["k"]]:
+            raise ValueError(f"object {type(o).__name__} for element {e['k']} at {list(path) + [j]}")
+        if e["k"] == "box":
+            yield from walk_elems(o.elems, e["e"], path + (j,))
+        else:
+            yield path + (j,), e, o
+
+
+def model_objects(elems):
+    for o in elems:
+        if type(o).__name__ == "Box":
+            yield from model_objects(o.elems)
+        else:
+            yield o
+
+
+def item_id(x):
+    name = getattr(x, "name", None)
+    if isinstance(name, str) and re.fullmatch(r"t\d+", name):
+        return int(name[1:])
+    return "?" + (name if isinstance(name, str) else type(x).__name__)
+
+
+def provider_keys(style):
+    keys = []
+    for cls, attrs in REF_ATTRS.items():
+        for attr, _ in attrs:
+            keys.append({"exact": f"{cls}.{attr}", "attr": f"*.{attr}", "cls": f"{cls}.*"}[style])
+    return sorted(set(keys))
+
+
+def make_mm(table, log, limit, style="exact"):
     use_repo()
     import textx
     from textx import get_model, metamodel_from_str
@@ -44,16 +205,28 @@ def make_mm(table, log, limit):
                     ms.append(x)
         return ms
 
+    def resolved_now(ms):
+        """ids of the references whose attribute holds a target right now (the real model state)"""
+        done = set()
+        for m in ms:
+            for o in model_objects(m.elems):
+                for attr, is_list in REF_ATTRS[type(o).__name__]:
+                    v = getattr(o, attr, None)
+                    for x in (v if is_list else [v]) or []:
+                        if x is not None:
+                            done.add(item_id(x))
+        return done
+
     def provider(obj, attr, obj_ref):
         calls[0] += 1
         if calls[0] > limit:
             raise NonTermination(f"provider called more than {limit} times")
-        rid = int(obj.name[1:])
+        rid = int(obj_ref.obj_name[1:])
         ms = all_models(obj)
-        refs = {r.name: r for m in ms for r in m.refs}
-        for d in table.get(rid, []):
-            other = refs.get(f"r{d}")
-            if other is None or other.target is None:
+        deps = table.get(rid, [])
+        if deps:
+            done = resolved_now(ms)
+            if any(d not in done for d in deps):
                 log.append(["postponed", rid])
                 return Postponed()
         for m in ms:
@@ -63,7 +236,10 @@ def make_mm(table, log, limit):
                     return it
         return None
 
-    mm.register_scope_providers({"*.*": sp.PlainNameImportURI(), "Ref.target": provider})
+    providers = {"*.*": sp.PlainNameImportURI()}
+    for k in provider_keys(style):
+        providers[k] = provider
+    mm.register_scope_providers(providers)
     return mm
 
 
@@ -93,66 +269,150 @@ class Prop(Check):
         "Resolve.C09_success_iff",
         "Resolve.C09_error_exact",
         "Resolve.C09_order_indep",
+        "Resolve.C09_list_result",
+        "Resolve.C09_list_success",
+        "Resolve.C09_list_order_indep",
     ]
     DRIVER = "Drivers/Resolve.lean"
-    QUICK_CASES = 400
-    THOROUGH_CASES = 6000
-    RULE = ("dependency tables over <=7 references (chains, cycles, self-waits, dead references) spread over 1..3 "
-            "model files with random import graphs; non-trivial = at least one reference is postponed at least once")
-    MODELLED = ("hand-modelled: model.py:935-968 loop and resolve_one_step pass (Resolve.step/loop); tie X: resolution "
-                "sequence + pending set vs real resolver with a table-driven provider; not exhibited: providers that "
-                "are not monotone in the resolved set")
+    QUICK_CASES = 480
+    THOROUGH_CASES = 8000
+    PROCS_QUICK = 3
+    RULE = ("dependency tables over <=10 references (chains, cycles, self-waits, waits for absent references, DAGs along a "
+            "hidden order) held by single-valued attributes, two attributes of one object, list attributes (+=, *=, repeated "
+            "assignment; several objects of one class, two lists on one object, same attribute name in two classes) and "
+            "objects nested in containers, spread over 1..3 model files with random import graphs; provider registered "
+            "as Class.attr / *.attr / Class.*; non-trivial = at least one reference is postponed at least once")
+    MODELLED = ("hand-modelled: model.py:935-968 loop and resolve_one_step pass (Resolve.step/loop) and its list branch "
+                "(Resolve.attrAfter: bisect insertion, one position list per object and attribute); tie X: resolution "
+                "sequence + pending set + content of every list attribute vs real resolver with a table-driven provider; "
+                "not exhibited: providers that are not monotone in the resolved set, providers attached in the grammar (RREL)")
     ASSUMPTIONS = ["scope providers are monotone in the set of resolved references (the property's 'given the ones resolved before it')"]
 
+    # ------------------------------------------------------------------ generator
     def gen(self, rng, n, tier):
-        for k in range(n):
-            nrefs = rng.randint(1, 7)
-            ids = list(range(nrefs))
-            deps = {}
-            for i in ids:
-                kind = rng.weighted([("free", 4), ("some", 5), ("self", 1)])
-                if kind == "some":
-                    deps[i] = rng.sample(ids, rng.randint(1, min(3, nrefs)))
-                elif kind == "self":
-                    deps[i] = [i]
-            nfiles = rng.weighted([(1, 3), (2, 3), (3, 2)])
-            files = [{"imports": [], "refs": []} for _ in range(nfiles)]
-            for i in rng.shuffle(ids):
-                files[rng.below(nfiles)]["refs"].append(i)
-            # import graph: every file reachable from main; extra edges (cycles allowed)
-            for j in range(1, nfiles):
-                files[rng.below(j)]["imports"].append(j)
-            if nfiles > 1 and rng.chance(0.4):
-                a, b = rng.below(nfiles), rng.below(nfiles)
-                if b not in files[a]["imports"] and a != b:
-                    files[a]["imports"].append(b)
-            yield {"deps": [[i, deps[i]] for i in sorted(deps)], "files": files}
+        for _ in range(n):
+            profile = rng.weighted([("mixed", 5), ("lists", 5), ("scalar", 2)])
+            yield self.gen_one(rng, profile)
 
+    def gen_deps(self, rng, ids, clean):
+        """dependency structure: `clean` = a DAG along a hidden resolution order (always resolvable, the hidden
+        order is independent of the textual one); otherwise arbitrary waits incl. cycles, self-waits and waits
+        for a reference that does not exist."""
+        n = len(ids)
+        deps = {}
+        if clean:
+            rank = rng.shuffle(ids)
+            for pos, i in enumerate(rank):
+                if pos and rng.chance(0.6):
+                    deps[i] = rng.sample(rank[:pos], rng.randint(1, min(3, pos)))
+            return deps
+        for i in ids:
+            kind = rng.weighted([("free", 8), ("some", 10), ("self", 2), ("absent", 1)])
+            if kind == "some":
+                deps[i] = rng.sample(ids, rng.randint(1, min(3, n)))
+            elif kind == "self":
+                deps[i] = [i]
+            elif kind == "absent":
+                deps[i] = [n + rng.below(3)]
+        return deps
+
+    def pack(self, rng, ids, profile):
+        """distribute the references `ids` (textual order) over elements"""
+        weights = {
+            "scalar": [("ref", 8), ("link", 2)],
+            "mixed": [("ref", 4), ("link", 1), ("group", 4), ("bag", 1), ("pair", 1)],
+            "lists": [("ref", 1), ("group", 7), ("bag", 1), ("pair", 1)],
+        }[profile]
+        ids = list(ids)
+        elems = []
+        while ids:
+            k = rng.weighted(weights)
+            if k in ("link", "pair") and len(ids) < 2:
+                k = "ref"
+            if k == "ref":
+                elems.append({"k": "ref", "r": ids.pop(0)})
+            elif k == "link":
+                elems.append({"k": "link", "r": [ids.pop(0), ids.pop(0)]})
+            elif k == "pair":
+                cnt = 3 if len(ids) >= 3 and rng.chance(0.3) else 2
+                elems.append({"k": "pair", "m": [ids.pop(0) for _ in range(cnt)]})
+            elif k == "bag":
+                cnt = rng.randint(0, min(3, len(ids)))
+                elems.append({"k": "bag", "m": [ids.pop(0) for _ in range(cnt)]})
+            else:
+                cnt = rng.randint(1, min(4, len(ids)))
+                e = {"k": "group", "m": [ids.pop(0) for _ in range(cnt)], "x": []}
+                if ids and rng.chance(0.3):
+                    e["x"] = [ids.pop(0) for _ in range(rng.randint(1, min(2, len(ids))))]
+                elems.append(e)
+        if profile != "scalar":
+            for _ in range(2):  # containers (possibly nested)
+                if elems and rng.chance(0.25):
+                    a = rng.below(len(elems))
+                    b = rng.randint(a, len(elems))
+                    elems[a:b] = [{"k": "box", "e": elems[a:b]}]
+        return elems
+
+    def gen_one(self, rng, profile):
+        nrefs = {"scalar": rng.randint(1, 7), "mixed": rng.randint(2, 9), "lists": rng.randint(3, 10)}[profile]
+        ids = list(range(nrefs))
+        clean = rng.chance({"scalar": 0.2, "mixed": 0.5, "lists": 0.7}[profile])
+        deps = self.gen_deps(rng, ids, clean)
+        if profile == "lists":
+            nfiles = rng.weighted([(1, 5), (2, 3), (3, 1)])
+        else:
+            nfiles = rng.weighted([(1, 3), (2, 3), (3, 2)])
+        per_file = [[] for _ in range(nfiles)]
+        for i in rng.shuffle(ids):
+            per_file[rng.below(nfiles)].append(i)
+        files = [{"imports": [], "elems": self.pack(rng, per_file[j], profile)} for j in range(nfiles)]
+        # import graph: every file reachable from main; extra edges (cycles allowed)
+        for j in range(1, nfiles):
+            files[rng.below(j)]["imports"].append(j)
+        if nfiles > 1 and rng.chance(0.4):
+            a, b = rng.below(nfiles), rng.below(nfiles)
+            if b not in files[a]["imports"] and a != b:
+                files[a]["imports"].append(b)
+        return {"deps": [[i, deps[i]] for i in sorted(deps)], "prov": rng.choice(["exact", "attr", "cls"]), "files": files}
+
+    # ------------------------------------------------------------------ implementation
     def impl(self, case):
         use_repo()
         from textx.exceptions import TextXError
 
         table = {i: d for i, d in case["deps"]}
         files = case["files"]
-        nrefs = sum(len(f["refs"]) for f in files)
+        nrefs = sum(len(file_refs(f)) for f in files)
         log = []
-        mm = make_mm(table, log, limit=(nrefs + 3) * (nrefs + 1) + 5)
+        mm = make_mm(table, log, limit=(nrefs + 3) * (nrefs + 1) + 5, style=case.get("prov", "exact"))
         tmp = tempfile.mkdtemp(prefix="c09_")
         try:
             for i, f in enumerate(files):
-                lines = [f'import "f{j}.m"' for j in f["imports"]]
-                lines += [f"item pad{i}"]  # an empty file would yield a str model (outside C09)
-                lines += [f"item t{r}" for r in f["refs"]]
-                lines += [f"ref r{r} -> t{r}" for r in f["refs"]]
                 with open(os.path.join(tmp, f"f{i}.m"), "w") as fh:
-                    fh.write("\n".join(lines) + "\n")
+                    fh.write(render_file(i, f)[0])
             try:
                 model = mm.model_from_file(os.path.join(tmp, "f0.m"))
                 out = {"outcome": "ok", "pending": []}
-                allm = [model] + [m for m in getattr(model, "_tx_model_repository").all_models if m is not model] \
-                    if hasattr(model, "_tx_model_repository") else [model]
-                bad = [r.name for m in allm for r in m.refs if r.target is None or r.target.name != "t" + r.name[1:]]
-                out["wrong_targets"] = bad
+                allm = [model]
+                if hasattr(model, "_tx_model_repository"):
+                    allm += [m for m in model._tx_model_repository.all_models if m is not model]
+                byfile = {os.path.basename(m._tx_filename): m for m in allm}
+                values = []  # one per reference attribute, order of case_attrs(case)
+                try:
+                    for i, f in enumerate(files):
+                        m = byfile.get(f"f{i}.m")
+                        if m is None:
+                            raise ValueError(f"model file f{i}.m was not loaded")
+                        for path, e, o in walk_elems(m.elems, file_elems(f), ()):
+                            for attr, is_list, _ in elem_attrs(e):
+                                v = getattr(o, attr, None)
+                                if is_list:
+                                    values.append([item_id(x) for x in v] if isinstance(v, list) else "not-a-list")
+                                else:
+                                    values.append(None if v is None else item_id(v))
+                    out["values"] = values
+                except ValueError as e:
+                    out["shape"] = str(e)
             except NonTermination as e:
                 out = {"outcome": "nonterm", "msg": str(e)}
             except TextXError as e:
@@ -165,16 +425,18 @@ class Prop(Check):
                 out = {"outcome": "other", "type": type(e).__name__, "msg": str(e)[:200]}
         finally:
             shutil.rmtree(tmp, ignore_errors=True)
-        out["seq"] = [r for k, r in log if k == "resolved"]
-        out["postponed"] = sum(1 for k, _ in log if k == "postponed")
+        out["seq"] = [r[1] for r in log if r[0] == "resolved"]
+        out["postponed"] = sum(1 for r in log if r[0] == "postponed")
         return out
 
     def order(self, case):
         files = case["files"]
-        return [r for i in file_order(files) for r in files[i]["refs"]]
+        return [r for i in file_order(files) for r in file_refs(files[i])]
 
+    # ------------------------------------------------------------------ model tie
     def model_req(self, case, obs):
-        return {"op": "loop", "refs": self.order(case), "deps": case["deps"]}
+        lists = [a["refs"] for a in case_attrs(case) if a["list"]]
+        return {"op": "resolve", "refs": self.order(case), "deps": case["deps"], "lists": lists}
 
     def compare(self, case, obs, out):
         if "err" in out:
@@ -185,8 +447,18 @@ class Prop(Check):
             return f"pending references differ: impl {sorted(obs['pending'])} model {sorted(out['pending'])}"
         if obs["seq"] != out["seq"]:
             return f"resolution sequence differs: impl {obs['seq']} model {out['seq']}"
+        if obs["outcome"] == "ok" and "values" in obs:
+            attrs = case_attrs(case)
+            got = [v for a, v in zip(attrs, obs["values"]) if a["list"]]
+            if got != out["lists"]:
+                for a, g, w in zip([a for a in attrs if a["list"]], got, out["lists"]):
+                    if g != w:
+                        return (f"list attribute {a['cls']}.{a['attr']} of element {a['path']} in file {a['file']}: "
+                                f"implementation {g}, model {w}")
+                return f"list attributes differ: implementation {got}, model {out['lists']}"
         return None
 
+    # ------------------------------------------------------------------ direct oracle
     def oracle(self, case, obs):
         # spec: least fixpoint of "all dependencies resolved"
         table = {i: d for i, d in case["deps"]}
@@ -206,8 +478,19 @@ class Prop(Check):
         if not dead:
             if obs["outcome"] != "ok":
                 return f"every reference is resolvable in some order but loading failed naming {obs['pending']}"
-            if obs.get("wrong_targets"):
-                return f"references resolved to wrong targets: {obs['wrong_targets']}"
+            if "shape" in obs:
+                return f"the loaded models do not have the objects of the model text: {obs['shape']}"
+            # the result must be the one an unpostponed load gives: every single-valued reference holds its
+            # target, every list holds the targets of its references in the order they are written
+            for a, v in zip(case_attrs(case), obs["values"]):
+                want = [r for r, _ in a["refs"]]
+                where = f"{a['cls']}.{a['attr']} of element {a['path']} in file {a['file']}"
+                if a["list"]:
+                    if v != want:
+                        return (f"list {where} = {v} but its references are written in the order {want} "
+                                "(the result depends on the resolution order)")
+                elif v != want[0]:
+                    return f"reference {where} resolved to {v}, expected {want[0]}"
         else:
             if obs["outcome"] == "ok":
                 return f"references {dead} can never resolve but loading succeeded"
@@ -218,18 +501,87 @@ class Prop(Check):
     def nontrivial(self, case, obs):
         return obs.get("postponed", 0) > 0
 
+    def extra_evidence(self, cases, obs, model_outs):
+        """how often the territory of the list theorems was reached"""
+        with_lists = inverted = shared = 0
+        for c, o in zip(cases, obs):
+            if not isinstance(o, dict) or o.get("outcome") != "ok":
+                continue
+            lists = [a for a in case_attrs(c) if a["list"] and a["refs"]]
+            if not lists:
+                continue
+            with_lists += 1
+            when = {r: n for n, r in enumerate(o.get("seq", []))}
+            inv = [a for a in lists
+                   if any(when.get(x, 0) > when.get(y, 0) for (x, _), (y, _) in zip(a["refs"], a["refs"][1:]))]
+            if inv:
+                inverted += 1
+                if any(sum(1 for b in lists if (b["file"], b["cls"]) == (a["file"], a["cls"])) > 1 for a in inv):
+                    shared += 1
+        return {"loads_with_lists": with_lists, "loads_with_list_resolved_out_of_textual_order": inverted,
+                "of_these_with_another_list_of_the_same_class_in_the_file": shared}
+
+    # ------------------------------------------------------------------ shrinking
+    @staticmethod
+    def _without(elems, x):
+        """elements with reference x removed (elements that cannot do without it are reshaped)"""
+        out = []
+        for e in elems:
+            k = e["k"]
+            if k == "box":
+                inner = Prop._without(e["e"], x)
+                if inner:
+                    out.append({"k": "box", "e": inner})
+            elif k == "ref":
+                if e["r"] != x:
+                    out.append(e)
+            elif k == "link":
+                rest = [r for r in e["r"] if r != x]
+                out.append(e if len(rest) == 2 else {"k": "ref", "r": rest[0]})
+            else:
+                m = [r for r in e["m"] if r != x]
+                xs = [r for r in e.get("x", []) if r != x]
+                if k == "group":
+                    if not m:
+                        m, xs = xs, []
+                    if m:
+                        out.append({"k": "group", "m": m, "x": xs})
+                elif k == "pair" and len(m) < 2:
+                    if m:
+                        out.append({"k": "group", "m": m, "x": []})
+                elif m or (k == "bag" and len(e["m"]) == 0):
+                    out.append({"k": k, "m": m})
+        return out
+
     def shrink(self, case):
+        files = [{"imports": f["imports"], "elems": file_elems(f)} for f in case["files"]]
+        prov = case.get("prov", "exact")
+        ids = sorted({r for f in files for r in file_refs(f)})
         # drop one reference (and mentions of it)
-        ids = sorted({r for f in case["files"] for r in f["refs"]})
         for x in ids:
-            files = [{"imports": f["imports"], "refs": [r for r in f["refs"] if r != x]} for f in case["files"]]
+            fs = [{"imports": f["imports"], "elems": self._without(f["elems"], x)} for f in files]
             deps = [[i, [d for d in ds if d != x]] for i, ds in case["deps"] if i != x]
             deps = [[i, ds] for i, ds in deps if ds]
-            if any(f["refs"] for f in files):
-                yield {"deps": deps, "files": files}
-        if len(case["files"]) > 1:
-            merged = {"imports": [], "refs": [r for f in case["files"] for r in f["refs"]]}
-            yield {"deps": case["deps"], "files": [merged]}
+            if any(file_refs(f) for f in fs):
+                yield {"deps": deps, "prov": prov, "files": fs}
+        # one file
+        if len(files) > 1:
+            merged = {"imports": [], "elems": [e for f in files for e in f["elems"]]}
+            yield {"deps": case["deps"], "prov": prov, "files": [merged]}
+        # open a container
+        for fi, f in enumerate(files):
+            for j, e in enumerate(f["elems"]):
+                if e["k"] == "box":
+                    f2 = {"imports": f["imports"], "elems": f["elems"][:j] + e["e"] + f["elems"][j + 1:]}
+                    yield {"deps": case["deps"], "prov": prov, "files": files[:fi] + [f2] + files[fi + 1:]}
+        # drop one wait
+        for n, (i, ds) in enumerate(case["deps"]):
+            for d in ds:
+                rest = [y for y in ds if y != d]
+                deps = case["deps"][:n] + ([[i, rest]] if rest else []) + case["deps"][n + 1:]
+                yield {"deps": deps, "prov": prov, "files": files}
+        if prov != "exact":
+            yield {"deps": case["deps"], "prov": "exact", "files": files}
 
     def extra_search(self, rng, tier, broken):
         return list(self.gen(rng, 1500 if tier == "quick" else 10000, tier))
